@@ -8,6 +8,7 @@ import Driver.OpsDataFormat
 import Driver.OpsCsv
 import Driver.OpsCid
 import Driver.OpsOds
+import Driver.OpsExcel
 open Driver
 
 def dispatch (args : List String) : String :=
@@ -24,6 +25,7 @@ def dispatch (args : List String) : String :=
     else if op.startsWith "csv." then opCsv args
     else if op.startsWith "cid." then opCid args
     else if op == "ods" then opOds args
+    else if op == "excel" then opExcel args
     else "bad-op"
 
 partial def loop (h : IO.FS.Stream) (out : IO.FS.Stream) : IO Unit := do
